@@ -391,6 +391,7 @@ type c25Env struct {
 	c     *vkit.Check
 	api   *API
 	offer SessionDescription
+	grace int64 // remaining 1 ms re-polls before a wanted candidate is reported lost
 }
 
 // c25Acc collects outcomes and distinct classes of one chunk (the shared
@@ -574,7 +575,7 @@ func (e *c25Env) ufragClause(k c25Core, lists [][]c25Ext, path string) {
 	const base = 2000
 	// a first candidate creates the ICE agent; then the goroutine count at rest is measured
 	marker := base - 1
-	if err := pc.AddICECandidate(ICECandidateInit{Candidate: fmt.Sprintf("candidate:9 1 udp 5 192.0.2.99 %d typ host ufrag %s", marker, c25RemoteUfrag)}); err != nil {
+	if err := pc.AddICECandidate(ICECandidateInit{Candidate: fmt.Sprintf("candidate:9 1 udp 5 192.0.2.99 %d typ host", marker)}); err != nil {
 		vkit.Fatalf(e.t, "marker candidate rejected: %v", err)
 	}
 	quiet := e.settle()
@@ -621,6 +622,27 @@ func (e *c25Env) ufragClause(k c25Core, lists [][]c25Ext, path string) {
 	if _, ok := got[marker]; !ok {
 		vkit.Fatalf(e.t, "marker candidate is not in the agent")
 	}
+	// Guard against a goroutine unrelated to the calls ending during the batch
+	// (the count barrier would then be reached one goroutine early): before a
+	// wanted candidate is reported lost the agent is polled again, within a
+	// grace budget shared by the whole run.
+	missing := func() bool {
+		for _, s := range all {
+			want := true
+			for _, x := range s.t.Ext {
+				want = want && !(x.K == "ufrag" && x.V != c25RemoteUfrag)
+			}
+			if _, ok := got[s.t.Port]; want && !ok {
+				return true
+			}
+		}
+
+		return false
+	}
+	for missing() && atomic.AddInt64(&e.grace, -1) > 0 {
+		time.Sleep(time.Millisecond)
+		got = e.agentCandidates(pc, quiet)
+	}
 	for _, s := range all {
 		rc := c25Case{Part: "B", Path: path, Tuple: s.t, Line: s.line}
 		wantAdded := true
@@ -632,14 +654,14 @@ func (e *c25Env) ufragClause(k c25Core, lists [][]c25Ext, path string) {
 		in, added := got[s.t.Port]
 		switch {
 		case !wantAdded && added:
-			c.Violation(fmt.Sprintf("B-not-dropped|typ=%s|ext=%s", s.t.Typ, s.t.extShape()),
+			c.Violation(fmt.Sprintf("B-not-dropped|ext=%s", s.t.extShape()),
 				fmt.Sprintf("%q names a ufrag that is not in the remote description (%s) but the candidate reached the ICE agent", s.line, c25RemoteUfrag), rc)
 			c.Outcome("B-not-dropped")
 		case !wantAdded:
 			c.Outcome("B-dropped")
 			c.Distinct(fmt.Sprintf("B|dropped|%s|%s|%s", path, s.t.Typ, s.t.extShape()))
 		case !added:
-			c.Violation(fmt.Sprintf("B-lost|typ=%s|proto=%s|ext=%s", s.t.Typ, s.t.Proto, s.t.extShape()),
+			c.Violation(fmt.Sprintf("B-lost|typ=%s|ext=%s", s.t.Typ, s.t.extShape()),
 				fmt.Sprintf("AddICECandidate(%q) returned nil but the candidate never reached the ICE agent", s.line), rc)
 			c.Outcome("B-lost")
 		default:
@@ -671,7 +693,7 @@ func TestVerifC25(t *testing.T) { //nolint:cyclop
 
 	lf := logging.NewDefaultLoggerFactory()
 	lf.DefaultLogLevel = logging.LogLevelDisabled
-	env := &c25Env{t: t, c: c}
+	env := &c25Env{t: t, c: c, grace: 5000}
 	env.api = vNewAPI(t, vAPIOpts{setting: func(s *SettingEngine) { s.LoggerFactory = lf }})
 
 	// the remote offer, once, with a known ufrag
